@@ -119,6 +119,13 @@ impl BigUint {
 //+{
         ensures r is None <==> self.v() == 0,
             r is Some ==> self.v() % p2(r.unwrap() as nat) == 0 && bitv(self.v(), r.unwrap() as nat),
+            r is Some ==> ({
+                let t = r.unwrap() as nat; let i = (t / 64) as int;
+                &&& i < self.dg().len()
+                &&& forall|j: int| 0 <= j < i ==> self.dg()[j] == 0
+                &&& self.dg()[i] != 0
+                &&& t % 64 == vstd::std_specs::bits::u64_trailing_zeros(self.dg()[i]) as nat
+            }),
 //+}
     {
 //+{
